@@ -43,4 +43,48 @@ theorem exCtx_accepted (c : Sieve.Cfg) (f : Sieve.StopFn) (threads : ℤ) (isPri
   split_ifs at h
   all_goals omega
 
+/-! ### the tuning factors range over more than one value at the same `x` -/
+
+/-- float outcomes of a `pi_gourdon_64(100000)` run with `alpha_y = 1.5`, `alpha_z = 1`: `y = z = 69` (the run of `exGFloats` has
+    `alpha_y = 1`, `alpha_z = 2`: `y = 47`, `z = 94`) -/
+def exGFloats' : GFloats := { maxX := 18193928570460861117506040777, v := 69, w := fun y => y, mt := fun _ => 1 }
+
+theorem exGEnv' : GourdonEnv 100000 (3 / 2) 1 exGFloats' := by
+  have hy : gY 100000 exGFloats'.v = 69 := by
+    unfold gY clampY exGFloats'
+    rw [iroot3_1e5]
+    have : isqrtN 100000 = 316 := by rw [isqrtN_eq]; norm_num [Nat.sqrt_eq']
+    rw [this]; decide
+  have hz : gZ 100000 69 (exGFloats'.w 69) = 69 := by
+    unfold gZ clampZ exGFloats'
+    have : isqrtN 100000 = 316 := by rw [isqrtN_eq]; norm_num [Nat.sqrt_eq']
+    rw [this]; decide
+  unfold GourdonEnv
+  rw [hy, hz]
+  have ht : ((100000 : ℕ) : ℤ) / 69 = 1449 := by decide
+  unfold TruncNear MaxXNear PowThreadsNear exGFloats' relEps
+  simp only []
+  rw [iroot3_1e5, iroot6_1e5, ht]
+  norm_num
+
+/-- float outcomes of a `pi_deleglise_rivat_64(100000)` run with `alpha = 2`: `y = 92` (`exDrFloats`: `alpha = 1`, `y = 46`) -/
+def exDrFloats' : DFloats := { maxX := 28011385487393069959365969113, v := 92, mt := fun _ => 1 }
+
+theorem exDrEnv' : DrEnv 100000 2 exDrFloats' := by
+  have ht : Int.tdiv ((100000 : ℕ) : ℤ) 92 = 1086 := by decide
+  unfold DrEnv TruncNear MaxXNear PowThreadsNear exDrFloats' relEps
+  simp only []
+  rw [iroot3_1e5, iroot6_1e5, ht]
+  norm_num
+
+/-- the complete execution of `pi_gourdon_64(100000)` of WP close, with its tuning factors named: `alpha_y = 1`, `alpha_z = 2` -/
+theorem exGExecAlpha (c : Sieve.Cfg) (f : Sieve.StopFn) :
+    GExecAlpha (exWorld.tablesS c f false) 100 100000 1 2 (exGRun (exWorld.tablesS c f false).t) :=
+  let h := exGExecC_worldS c f
+  ⟨exGEnv, h.adm.phi0, h.adm.b, h.adm.ac, h.yB, h.reach⟩
+
+/-- … and of `pi_deleglise_rivat_64(100000)`: `alpha = 1` -/
+theorem exDrExecAlpha (c : Sieve.Cfg) (f : Sieve.StopFn) : DrExecAlpha (exWorld.tablesS c f false) 100 100000 1 exDrRun :=
+  ⟨exDrEnv, exDrExec_worldS c f⟩
+
 end Pc.Indep
